@@ -36,3 +36,33 @@ pub fn crypto_with_speeds(
         algorithms: Algorithms { algorithm_speeds: speeds.into_iter().collect(), allow_unencrypted },
     }
 }
+
+pub struct PeerCryptoView {
+    pub init: Option<crate::crypto::verif_hooks_init::InitView>,
+    pub unencrypted: bool,
+    pub rotate_counter: usize,
+    pub core: Option<(usize, bool, Vec<crate::crypto::verif_hooks_core::SlotView>)>,
+    pub rot: Option<((u64, bool, bool, bool, bool), (Option<Vec<u8>>, Option<Vec<u8>>))>,
+}
+
+pub fn peer_crypto_view<P: Payload>(pc: &PeerCrypto<P>) -> PeerCryptoView {
+    PeerCryptoView {
+        init: pc.init.as_ref().map(crate::crypto::verif_hooks_init::view),
+        unencrypted: pc.unencrypted,
+        rotate_counter: pc.rotate_counter,
+        core: pc.core.as_ref().map(crate::crypto::verif_hooks_core::view),
+        rot: pc.rotation.as_ref().map(|r| (crate::crypto::verif_hooks_rotate::state_view(r), crate::crypto::verif_hooks_rotate::key_view(r))),
+    }
+}
+
+pub fn key_pair_from_seed(seed: &[u8]) -> Arc<Ed25519KeyPair> {
+    Arc::new(Ed25519KeyPair::from_seed_unchecked(seed).unwrap())
+}
+
+pub fn algo_by_id(id: u8) -> &'static Algorithm {
+    match id {
+        1 => &aead::AES_128_GCM,
+        2 => &aead::AES_256_GCM,
+        _ => &aead::CHACHA20_POLY1305,
+    }
+}
